@@ -71,6 +71,7 @@ class AbsHub:
 
     def sym_getitem(self, eng, key):
         desc, size = key
+        size = eng.concretize(size)
         pa = desc.attrs['paddress'].attrs['physicaladdress']
         v = hub_read(self.term, pa, size)
         self.log.append(('hubR', pa, size, v))
@@ -78,6 +79,7 @@ class AbsHub:
 
     def sym_setitem(self, eng, key, value):
         desc, size = key
+        size = eng.concretize(size)
         pa = desc.attrs['paddress'].attrs['physicaladdress']
         self.log.append(('hubW', pa, size, value))
         self.term = hub_write(self.term, pa, size, value)
@@ -139,6 +141,7 @@ def make_unit(name, size, write, kind):
 
         def translate(e, c, va, ispriv, iswrite, sz, wasaligned):
             n = len(log)
+            sz = e.concretize(sz)
             log.append(('xlat', va, sym.truth(ispriv), sym.truth(iswrite), sz, sym.truth(wasaligned)))
             if e.istrue(xlat_fault(n, va, ispriv, iswrite, sz, wasaligned)):
                 log.append(('abort',))
@@ -509,6 +512,7 @@ def fetch_unit(iset):
 
         def translate(e, c, va, ispriv, iswrite, sz, wasaligned):
             n = len(log)
+            sz = e.concretize(sz)
             log.append(('xlat', va, sym.truth(ispriv), sym.truth(iswrite), sz, sym.truth(wasaligned)))
             if e.istrue(xlat_fault(n, va, ispriv, iswrite, sz, wasaligned)):
                 log.append(('abort',))
